@@ -8,5 +8,6 @@ CONSTANTS
   InitCaps = {0, 1, 2, 3}
   Pinned = FALSE
   Edges = FALSE
+  TrackDirect = TRUE
 INVARIANTS RepInv GhostOk C01_ResolveIffLive C02_OwnValue C03_DirectInBounds C08_FreeIsNewer C09_Direct C12_Len NoBad
 CHECK_DEADLOCK FALSE
